@@ -30,6 +30,16 @@ CHECKS = {
         "level_note": "Theorems are about the Lean model; the tie is differential. The field array limit (64 MiB) is enforced by the receive loop before decoding; decode_iff_valid carries it as a side condition.",
         "assumptions": ["the header region starts at offset 0 of the message buffer (16 = 0 mod 8), as the code's sub-cursor assumes"],
     },
+    "C09": {
+        "id": "C09",
+        "engine": "conn",
+        "trusted_base": COMMON_TB + [
+            "modelled, not verified (kernel assumptions, observed by the engine on a real socket): AF_UNIX stream = in-order byte stream; a recvmsg into a buffer of >= 1 byte returns EAGAIN or 1..min(requested, queued) bytes; SCM_RIGHTS descriptors ride on the first byte of the sendmsg they were attached to; at most 10 descriptors fit the control buffer; a zero-length recvmsg returns 0 bytes and still hands over the descriptors of the next byte (kept in the kernel model, proved never to be issued); the peer never hangs up during a history",
+        ],
+        "level_text": "Proved in Lean for ALL lists of well-formed frames, ALL histories (any interleaving of arriving bytes with read_once / guarded read_once / get_next_message calls, each call with any events during it) and ALL kernel answers (any short read, EAGAIN anywhere): the messages returned are exactly a prefix of the frames, in order, each with exactly its own bytes and its own descriptors; every byte and descriptor of the remaining frames is in the buffer / fds_in or still unread in the socket (nothing lost, nothing duplicated); no call fails or reports ConnectionClosed (reassembly, never_reports_closed); the buffer is always a prefix of the CURRENT frame, fds_in holds exactly its descriptors, the next recvmsg never asks for more than the rest of the current frame, refill issues no zero-length recvmsg and read_once on a complete buffer is a no-op (never_reads_past_frame, refill_issues_no_zero_length_recvmsg, read_once_on_complete_buffer_is_noop); a timed-out call changes nothing and is invisible to the rest of the history (timeout_is_noop, timed_out_call_is_invisible); complete histories return exactly the frames whatever the chunking (complete_history_returns_all, chunking_irrelevant, one_byte_at_a_time); the reservation never exceeds the current frame nor filled + 64 KiB (capacity_bounded); invalid / oversized announcements are refused before anything is read. Tied on a REAL DuplexConn (through the real auth code) to a scripted in-process peer in lock step: 2-3 message streams with descriptors on any message, every single and pair of split points incl. inside the fixed header, the length words and the padding, one byte at a time, EAGAIN probes between chunks, read_once on complete buffers with the next message (and its descriptors) already queued, all 8 header-length residues; bytes_needed, buffer_contains_whole_message and each call's result are compared with the model after every step; order, own header/body/descriptors, no leak, no read past the frame are checked directly.",
+        "level_note": "Theorems are about the Lean model; kernel behaviour is an assumption (observed by the engine, not proved). A peer hang-up is outside the model. Frames are assumed well-formed (FrameOk: decodable, <= 10 descriptors).",
+        "assumptions": ["descriptors are identified by the open file (dev, inode), not by number", "the engine's 'bytes taken' observation relies on FIONREAD"],
+    },
     "C10": {
         "id": "C10",
         "engine": "conn",
